@@ -164,6 +164,8 @@ def plan(tier, seed):
     base = seed * 1_000_003
     jobs += [{"kind": "gen", "seeds": list(range(base + k, base + k + per)), "shard": 10_000 + k, "nshards": 1,
               "tier": tier, "seed": seed} for k in range(0, ngen, per)]
+    if os.environ.get("XV_C17_GEN_ONLY"):  # maintainer knob: only the generated-module jobs (reach thresholds then
+        jobs = [j for j in jobs if j.get("kind") == "gen"]  # make the run inconclusive by design)
     return jobs
 
 
@@ -185,7 +187,14 @@ def generated_modules(seeds):
         r = random.Random(sd)
         if sd % 3 != 2:
             text, _, _ = gencfg.gen_cfg_func(r)
-            out.append((sd, ("gen:gencfg", sd, text)))
+            if sd % 3 == 1:
+                # variant with UNREGISTERED terminators: every argument-less `cf.br ^bbN` becomes an op of an
+                # unknown dialect with the same successor (passes must treat it as a terminator with that edge)
+                import re as _re
+                text = _re.sub(r"^(\s*)cf\.br (\^bb\d+)$", r'\1"xvunreg.br"() [\2] : () -> ()', text, flags=_re.M)
+                out.append((sd, ("gen:gencfg-unreg", sd, text)))
+            else:
+                out.append((sd, ("gen:gencfg", sd, text)))
         else:
             g = Gen14(r)
             out.append((sd, ("gen:c14gen", sd, g.module_text()[0])))
